@@ -186,6 +186,8 @@ Section SchemaCollect.
   Hypothesis NoCham : forall a x, src W a = Some (DXsd x) -> x_tns x <> None.
 
   Variable v : str.                      (* the WSDL document whose collection is built *)
+  Variable RQd : str -> str -> Prop.     (* what is known of the schema requests so far *)
+  Hypothesis RQd_v : forall a, sr W v a -> RQd v a.
   Variable cont : list xschema.          (* its consolidated schema roots *)
   Hypothesis ContSound : forall j c, nth_error cont j = Some c ->
       (forall n, In n (x_decls c) -> sd W v (x_tns c, n)) /\
@@ -222,7 +224,7 @@ Section SchemaCollect.
     forall t x i r, inst s t = Some x -> nth_error (x_refs x) i = Some r -> ~ In (t, i) (s_rem s) ->
                     resolved s (base_of t) r.
   Definition reqs_ok (io : IO) : Prop :=
-    Pio io /\ forall a, In (DomS v, a) (reqs io) -> sr W v a.
+    Pio io /\ forall o a, In (DomS o, a) (reqs io) -> RQd o a.
   Definition SV (S : list sid) (s : sst) (io : IO) : Prop :=
     memo_ok s /\ tab_sound s /\ fresh_tab s /\ cov S s /\ allopen S s /\ closed s /\ reqs_ok io.
 
@@ -344,8 +346,8 @@ Section SchemaCollect.
       pose proof (Hsrc (DomS v) u io) as Hs.
       destruct (opn (DomS v) u io) as [o io1]; cbn in Hq, Hp, Hs.
       assert (Rq1 : reqs_ok io1).
-      { split; auto. intros a Hin. rewrite Hq in Hin. destruct Hin as [E|Hin].
-        - inversion E; subst; auto.
+      { split; auto. intros o0 a Hin. rewrite Hq in Hin. destruct Hin as [E|Hin].
+        - inversion E; subst. apply RQd_v; auto.
         - apply Rq; auto. }
       destruct o as [d|]; [|exact Rq1].
       specialize (Hs d (proj1 Rq) eq_refl).
@@ -714,6 +716,8 @@ Section BuildCollect.
   Hypothesis NoCham : forall a x, src W a = Some (DXsd x) -> x_tns x <> None.
 
   Variable v : str.
+  Variable RQd : str -> str -> Prop.
+  Hypothesis RQd_v : forall a, sr W v a -> RQd v a.
   Variable roots : list xschema.
   (* what is built is the collection of v, each root read with the right base *)
   Hypothesis RootsSound : forall x, In x roots -> exists b, member W v b x.
@@ -751,16 +755,16 @@ Section BuildCollect.
   Qed.
 
   Lemma build_schema_collect io :
-    reqs_ok W IO reqs Pio v io ->
+    reqs_ok IO reqs Pio RQd io ->
     match build_schema IO opn univ v roots io with
     | (Ok s3, io3) =>
-        reqs_ok W IO reqs Pio v io3 /\
+        reqs_ok IO reqs Pio RQd io3 /\
         (s_shadow s3 = false -> forall q, In q (final_tab roots s3) <-> sd W v q)
-    | (_, io3) => reqs_ok W IO reqs Pio v io3
+    | (_, io3) => reqs_ok IO reqs Pio RQd io3
     end.
   Proof.
     intro Rq. unfold build_schema. fold cont.
-    assert (H0 : SV W IO reqs Pio v cont children (init_sst cont) io).
+    assert (H0 : SV W IO reqs Pio v RQd cont children (init_sst cont) io).
     { apply SV_intro; auto.
       - intros a x H. discriminate.
       - intros t q Hq. destruct t as [j|a]; cbn in Hq; [|destruct Hq].
@@ -783,7 +787,7 @@ Section BuildCollect.
         left. apply in_children. apply nth_error_Some. congruence.
       - intros t x i r Hi Hn Hnin. exfalso. destruct t as [j|a]; cbn in Hi; [|discriminate].
         apply Hnin. cbn. apply (in_cont_slots cont 0 j x i Hi). apply nth_error_Some. congruence. }
-    pose proof (open_all_collect W IO opn reqs Pio Hreq Pio_opn Hsrc NoCham v cont ContSound_l
+    pose proof (open_all_collect W IO opn reqs Pio Hreq Pio_opn Hsrc NoCham v RQd RQd_v cont ContSound_l
                   children (schema_fuel univ cont) (seq 0 (length cont)) (init_sst cont) io H0) as Ho.
     assert (Hjs : forall j, In j (seq 0 (length cont)) -> In (SInl j) children /\ j < length cont).
     { intros j Hj. apply in_seq in Hj. split; [apply in_children|]; lia. }
@@ -967,19 +971,31 @@ Section WsdlCollect.
   Qed.
 
   Lemma ext_refl s : ext s s.
-  Proof. unfold ext. repeat split; auto. Qed.
+  Proof. unfold ext. tauto. Qed.
+
+  Lemma ext_intro s s' :
+    (forall u d, lookup u (w_memo s) = Some d -> is_built u s = true -> lookup u (w_memo s') = Some d) ->
+    (forall u, has u (w_memo s) = true -> has u (w_memo s') = true) ->
+    (forall u t, lookup u (w_built s) = Some t -> lookup u (w_built s') = Some t) ->
+    (forall tid t, heap_at s tid = Some t -> is_built (t_owner t) s = true -> heap_at s' tid = Some t) ->
+    (forall tid t', heap_at s' tid = Some t' -> heap_at s tid = Some t' \/ is_built (t_owner t') s = false) ->
+    (w_shadow s' = false -> w_shadow s = false) -> ext s s'.
+  Proof. unfold ext. tauto. Qed.
 
   Lemma ext_trans s1 s2 s3 : ext s1 s2 -> ext s2 s3 -> ext s1 s3.
   Proof.
     intros H12 H23. pose proof (ext_built s1 s2) as Bm.
     destruct H12 as (A1 & H1 & B1 & C1 & D1 & E1). destruct H23 as (A2 & H2 & B2 & C2 & D2 & E2).
-    assert (H12 : ext s1 s2) by (unfold ext; repeat split; auto).
-    unfold ext. split; [|split; [|split; [|split; [|split]]]]; auto.
-    - intros u d Hl Hb. apply A2; auto. eapply Bm; eauto.
-    - intros tid t Ht Hb. apply C2; auto. eapply Bm; eauto.
+    assert (H12 : ext s1 s2) by (apply ext_intro; auto).
+    apply ext_intro.
+    - intros u d Hl Hb. apply A2; auto.
+    - auto.
+    - auto.
+    - intros tid t Ht Hb. apply C2; auto.
     - intros tid t' Ht. destruct (D2 tid t' Ht) as [H|H].
       + apply D1; auto.
       + right. destruct (is_built (t_owner t') s1) eqn:E; auto. apply (Bm _ H12) in E. congruence.
+    - auto.
   Qed.
 
   Lemma Fin_ext s s' u d : ext s s' -> Fin s u d -> Fin s' u d.
@@ -987,7 +1003,7 @@ Section WsdlCollect.
     intros He (Fn & Fs & Fc & Ft & Fa & Fm).
     pose proof (ext_built s s') as Bm. pose proof (ext_schema s s' u He) as Sm.
     destruct He as (A & Hh & B & C & D & E).
-    assert (He : ext s s') by (unfold ext; repeat split; auto).
+    assert (He : ext s s') by (apply ext_intro; auto).
     unfold Fin. split; [exact Fn|split; [|split; [|split; [|split]]]].
     - intros tid Hin. destruct (Fs tid Hin) as [t [Ht Hw]]. exists t. split; auto.
     - intros w tid t Hw Ht Ho. destruct (D tid t Ht) as [H|H].
@@ -998,4 +1014,989 @@ Section WsdlCollect.
     - intros w b x Hw Hm. destruct (Fm w b x Hw Hm) as [tid [t (Ht & Ho & Hx)]].
       exists tid, t. split; auto. apply C; auto. rewrite Ho. auto.
   Qed.
+
+  (* ---- spec-level facts ---- *)
+  Lemma wr_inv_first a c : wr W a c ->
+    c = a \/ exists imps types names l, src W a = Some (DWsdl imps types names) /\ In l imps /\ wr W (join a l) c.
+  Proof.
+    induction 1 as [|v imps types names l Hv IH Hs Hl]; auto.
+    right. destruct IH as [->|[imps0 [types0 [names0 [l0 (H1 & H2 & H3)]]]]].
+    - exists imps, types, names, l. split; auto. split; auto. constructor.
+    - exists imps0, types0, names0, l0. split; auto. split; auto. eapply wr_step; eauto.
+  Qed.
+
+  Lemma wr_first a imps types names l c :
+    src W a = Some (DWsdl imps types names) -> In l imps -> wr W (join a l) c -> wr W a c.
+  Proof. intros Hs Hl H. eapply wr_trans; [|exact H]. eapply wr_step; eauto. constructor. Qed.
+
+  Lemma member_wsdl v b x : member W v b x -> exists imps types names, src W v = Some (DWsdl imps types names).
+  Proof. destruct 1; eauto. Qed.
+
+  Lemma sr_member_ex v a : sr W v a -> exists b x, member W v b x.
+  Proof. induction 1; eauto. Qed.
+
+  Lemma sd_member_ex v q : sd W v q -> exists b x, member W v b x.
+  Proof. destruct 1; eauto. eapply sr_member_ex; eauto. Qed.
+
+  (* ---- state updates ---- *)
+  Lemma set_types_facts self ts s d :
+    lookup self (w_memo s) = Some d ->
+    lookup self (w_memo (set_types self ts s)) = Some (mkD (d_wsdl d) ts (d_xroot d) (d_names d)) /\
+    (forall u, str_eqb u self = false -> lookup u (w_memo (set_types self ts s)) = lookup u (w_memo s)) /\
+    w_heap (set_types self ts s) = w_heap s /\ w_built (set_types self ts s) = w_built s /\
+    w_shadow (set_types self ts s) = w_shadow s.
+  Proof.
+    intro H. unfold set_types. rewrite H. cbn. repeat split; auto.
+    - apply lookup_set_memo_same. eapply lookup_has; eauto.
+    - intros u Hu. apply lookup_set_memo_other; auto.
+  Qed.
+
+  Lemma set_names_facts self ns s d :
+    lookup self (w_memo s) = Some d ->
+    lookup self (w_memo (set_names self ns s)) = Some (mkD (d_wsdl d) (d_types d) (d_xroot d) ns) /\
+    (forall u, str_eqb u self = false -> lookup u (w_memo (set_names self ns s)) = lookup u (w_memo s)) /\
+    w_heap (set_names self ns s) = w_heap s /\ w_built (set_names self ns s) = w_built s /\
+    w_shadow (set_names self ns s) = w_shadow s.
+  Proof.
+    intro H. unfold set_names. rewrite H. cbn. repeat split; auto.
+    - apply lookup_set_memo_same. eapply lookup_has; eauto.
+    - intros u Hu. apply lookup_set_memo_other; auto.
+  Qed.
+
+  (* a state that differs from s in the entry of the in-progress document
+     [self], in Types objects owned by [self], and by new Types objects of [self] *)
+  Definition self_upd (self : str) (s s' : wst) : Prop :=
+    (forall u, str_eqb u self = false -> lookup u (w_memo s') = lookup u (w_memo s)) /\
+    (has self (w_memo s') = true) /\
+    w_built s' = w_built s /\ w_shadow s' = w_shadow s /\
+    (forall tid t, heap_at s tid = Some t -> t_owner t <> self -> heap_at s' tid = Some t) /\
+    (forall tid t', heap_at s' tid = Some t' -> heap_at s tid = Some t' \/ t_owner t' = self).
+
+  Lemma self_upd_ext self s s' :
+    is_built self s = false -> has self (w_memo s) = true -> self_upd self s s' -> ext s s'.
+  Proof.
+    intros Hb Hh (A & Hs & B & Sh & C & D). apply ext_intro.
+    - intros u d Hl Hbu. rewrite A; auto. destruct (str_eqb u self) eqn:E; auto.
+      apply str_eqb_eq in E. subst. congruence.
+    - intros u Hu. destruct (str_eqb u self) eqn:E.
+      + apply str_eqb_eq in E. subst. auto.
+      + unfold has in *. rewrite A; auto.
+    - intros u t Ht. rewrite B. auto.
+    - intros tid t Ht Hbt. apply C; auto. intro E. rewrite E in Hbt. congruence.
+    - intros tid t' Ht. destruct (D tid t' Ht) as [H|H]; auto. right. rewrite H. auto.
+    - rewrite Sh. auto.
+  Qed.
+
+  Lemma self_upd_inprog self s s' w :
+    has self (w_memo s) = true -> self_upd self s s' -> (inprog s' w <-> inprog s w).
+  Proof.
+    intros Hh (A & Hs & B & _). unfold inprog, is_built. rewrite B.
+    destruct (str_eqb w self) eqn:E.
+    - apply str_eqb_eq in E. subst. rewrite Hs, Hh. tauto.
+    - unfold has. rewrite A; auto. tauto.
+  Qed.
+
+  (* ---- frames: what a nested load leaves alone ---- *)
+  Definition frame2 (s s' : wst) : Prop :=
+    (forall u d, lookup u (w_memo s) = Some d -> lookup u (w_memo s') = Some d) /\
+    (forall tid t, heap_at s tid = Some t -> heap_at s' tid = Some t) /\
+    (forall tid t', heap_at s' tid = Some t' -> heap_at s tid = Some t' \/ has (t_owner t') (w_memo s) = false).
+
+  Definition frame_self (self : str) (s s' : wst) : Prop :=
+    (forall u d, str_eqb u self = false -> lookup u (w_memo s) = Some d -> lookup u (w_memo s') = Some d) /\
+    (forall tid t, heap_at s tid = Some t -> t_owner t <> self -> heap_at s' tid = Some t) /\
+    (forall tid t', heap_at s' tid = Some t' ->
+        heap_at s tid = Some t' \/ t_owner t' = self \/ has (t_owner t') (w_memo s) = false) /\
+    (forall u, has u (w_memo s) = true -> has u (w_memo s') = true).
+
+  Lemma frame2_self self s s' : frame2 s s' -> frame_self self s s'.
+  Proof.
+    intros (A & B & C). split; [|split; [|split]]; auto.
+    - intros tid t' Ht. destruct (C tid t' Ht); auto.
+    - intros u Hu. apply has_true_lookup in Hu. destruct Hu as [d Hd]. eapply lookup_has; eauto.
+  Qed.
+
+  Lemma self_upd_frame self s s' : has self (w_memo s) = true -> self_upd self s s' -> frame_self self s s'.
+  Proof.
+    intros Hh (A & Hs & B & Sh & C & D). split; [|split; [|split]]; auto.
+    - intros u d Hu Hl. rewrite A; auto.
+    - intros tid t' Ht. destruct (D tid t' Ht); auto.
+    - intros u Hu. destruct (str_eqb u self) eqn:E.
+      + apply str_eqb_eq in E. subst; auto.
+      + unfold has in *. rewrite A; auto.
+  Qed.
+
+  Lemma frame_self_refl self s : frame_self self s s.
+  Proof. split; [|split; [|split]]; auto. Qed.
+
+  Lemma frame_self_trans self s1 s2 s3 : frame_self self s1 s2 -> frame_self self s2 s3 -> frame_self self s1 s3.
+  Proof.
+    intros (A1 & B1 & C1 & D1) (A2 & B2 & C2 & D2). split; [|split; [|split]]; auto.
+    - intros tid t' Ht. destruct (C2 tid t' Ht) as [H|[H|H]]; auto.
+      right. right. destruct (has (t_owner t') (w_memo s1)) eqn:E; auto. apply D1 in E. congruence.
+  Qed.
+
+  (* ---- the document being constructed, after the imports [done] ---- *)
+  Definition LIrec (self : str) (own : list N) (types : list (list xschema)) (done : list str)
+             (s : wst) (d : dinfo) : Prop :=
+    d_wsdl d = true /\
+    (forall n, In n (d_names d) <-> In n own \/ exists l, In l done /\ names_spec W (join self l) n) /\
+    (forall tid, In tid (d_types d) -> exists t, heap_at s tid = Some t /\
+         (t_owner t = self \/ exists l, In l done /\ wr W (join self l) (t_owner t))) /\
+    (forall tid t, heap_at s tid = Some t -> t_owner t = self -> In tid (d_types d)) /\
+    (forall l w tid t, In l done -> wr W (join self l) w -> heap_at s tid = Some t -> t_owner t = w ->
+         In tid (d_types d)) /\
+    (forall l, In l done -> is_built (join self l) s = true) /\
+    (forall l x, In l done -> src W (join self l) = Some (DXsd x) ->
+         exists tid t, heap_at s tid = Some t /\ t_owner t = self /\ In x (t_roots t)) /\
+    (forall ts x, In ts types -> In x ts ->
+         exists tid t, heap_at s tid = Some t /\ t_owner t = self /\ In x (t_roots t)).
+  Definition LI self own types done s : Prop :=
+    exists d, lookup self (w_memo s) = Some d /\ is_built self s = false /\ LIrec self own types done s d.
+
+  Lemma last_in (l : list nat) : l <> [] -> In (last l 0) l.
+  Proof.
+    induction l as [|a l IH]; [congruence|]. intros _. destruct l as [|b l]; [left; auto|].
+    right. apply IH. discriminate.
+  Qed.
+
+  (* WV after a change that only concerns the in-progress document *)
+  Lemma WV_self_upd self s s' d' :
+    WV s -> is_built self s = false -> has self (w_memo s) = true -> self_upd self s s' ->
+    lookup self (w_memo s') = Some d' -> wr W root self -> d_wsdl d' = true ->
+    (exists imps types names, src W self = Some (DWsdl imps types names)) ->
+    (forall tid t', heap_at s' tid = Some t' -> t_owner t' = self ->
+                    forall x, In x (t_roots t') -> exists b, member W self b x) ->
+    WV s'.
+  Proof.
+    intros (Mw & Ho & Bo) Hb Hh Hu Hl Hr Hd Hswsdl Hroots.
+    pose proof (self_upd_ext self s s' Hb Hh Hu) as He.
+    destruct Hu as (A & Hs & B & Sh & C & D).
+    split; [|split].
+    - intros u d Hld. destruct (str_eqb u self) eqn:E.
+      + apply str_eqb_eq in E. subst u. assert (d = d') by congruence. subst d.
+        split; auto. split; auto. intro H. congruence.
+      + rewrite A in Hld; auto.
+    - intros tid t' Ht. destruct (D tid t' Ht) as [H|H].
+      + destruct (Ho tid t' H) as (H1 & H2 & H3). split; [|split; auto].
+        destruct He as (_ & Hm & _). auto.
+      + split; [rewrite H; auto|split; [rewrite H; auto|]]. rewrite H. apply (Hroots tid t' Ht H).
+    - intros u Hbu. assert (Hbu0 : is_built u s = true) by (unfold is_built in *; rewrite B in Hbu; auto).
+      destruct (Bo u Hbu0) as [d [Hld Hf]]. exists d. split.
+      + destruct He as (A1 & _). apply A1; auto.
+      + eapply Fin_ext; eauto.
+  Qed.
+
+  Lemma names_spec_xsd t x n : src W t = Some (DXsd x) -> ~ names_spec W t n.
+  Proof.
+    intros Hx (v & imps & types & names & Hw & Hs & _). apply (wr_xsd t x v Hx) in Hw. subst. congruence.
+  Qed.
+
+  (* the effect of one wsdl:import on the importer, its target being completely built *)
+  Lemma import_step self own allimps types done loc s dt :
+    WV s -> LI self own types done s -> wr W root self ->
+    src W self = Some (DWsdl allimps types own) -> In loc allimps ->
+    is_built (join self loc) s = true -> lookup (join self loc) (w_memo s) = Some dt ->
+    let s' := if d_wsdl dt then import_definitions self dt s else import_schema self dt s in
+    WV s' /\ LI self own types (loc :: done) s' /\ ext s s' /\ (forall w, inprog s' w <-> inprog s w) /\
+    frame_self self s s'.
+  Proof.
+    intros Hwv (d & Hld & Hnb & Hd & Nm & Ts & Oc & Lc & Bl & Xc & Ic) Hroot Hsself Hloc Hbt Hldt s'.
+    set (t := join self loc) in *.
+    destruct Hwv as (Mw & Ho & Bo).
+    assert (Hwv : WV s) by (split; [|split]; auto).
+    destruct (Bo t Hbt) as [dt' [Hldt' Hfin]]. assert (dt' = dt) by congruence. subst dt'.
+    destruct Hfin as (Fn & Fs & Fc & Ft & Fa & Fm).
+    destruct (Mw t dt Hldt) as (Hrt & Hwt & Hxt).
+    assert (Hh : has self (w_memo s) = true) by (eapply lookup_has; eauto).
+    assert (Hne : str_eqb t self = false).
+    { destruct (str_eqb t self) eqn:E; auto. apply str_eqb_eq in E. rewrite E in Hbt. congruence. }
+    assert (Hself_types : self_types self s = d_types d) by (unfold self_types; rewrite Hld; auto).
+    assert (Hsrc_ex : exists imps types names, src W self = Some (DWsdl imps types names)) by eauto.
+    destruct (d_wsdl dt) eqn:Ew.
+    - (* a WSDL: types and tables are taken over *)
+      destruct (Hwt eq_refl) as [timps [ttypes [tnames Htsrc]]].
+      unfold s', import_definitions. rewrite Hself_types.
+      destruct (set_types_facts self (d_types d ++ d_types dt) s d Hld) as (T1 & T2 & T3 & T4 & T5).
+      set (s1 := set_types self (d_types d ++ d_types dt) s) in *.
+      assert (Hsn : self_names self s = d_names d) by (unfold self_names; rewrite Hld; auto).
+      rewrite Hsn.
+      destruct (set_names_facts self (d_names d ++ d_names dt) s1 _ T1) as (U1 & U2 & U3 & U4 & U5).
+      set (s2 := set_names self (d_names d ++ d_names dt) s1) in *. cbn in U1.
+      assert (Hup : self_upd self s s2).
+      { split; [|split; [|split; [|split; [|split]]]].
+        - intros u Hu. rewrite U2, T2; auto.
+        - eapply lookup_has; eauto.
+        - rewrite U4, T4. auto.
+        - rewrite U5, T5. auto.
+        - intros tid t0 Ht _. unfold heap_at in *. rewrite U3, T3. auto.
+        - intros tid t0 Ht. left. unfold heap_at in *. rewrite U3, T3 in Ht. auto. }
+      assert (Hheap : forall tid, heap_at s2 tid = heap_at s tid) by (intro; unfold heap_at; rewrite U3, T3; auto).
+      assert (Hbuilt : forall u, is_built u s2 = is_built u s) by (intro; unfold is_built; rewrite U4, T4; auto).
+      split; [|split; [|split]].
+      + eapply WV_self_upd; eauto.
+        intros tid t0 Ht Hown x Hx. rewrite Hheap in Ht. destruct (Ho tid t0 Ht) as (_ & _ & H3).
+        rewrite <- Hown. auto.
+      + exists (mkD (d_wsdl d) (d_types d ++ d_types dt) (d_xroot d) (d_names d ++ d_names dt)).
+        split; [exact U1|]. split; [rewrite Hbuilt; auto|].
+        split; [exact Hd|]. cbn [d_names d_types].
+        split; [|split; [|split; [|split; [|split; [|split]]]]].
+        * intro n. rewrite in_app_iff, Nm. split.
+          -- intros [[H|[l [Hl Hn]]]|H]; auto.
+             ++ right. exists l. split; [right; auto|auto].
+             ++ right. exists loc. split; [left; auto|]. apply Fn; auto.
+          -- intros [H|[l [[<-|Hl] Hn]]]; auto.
+             ++ right. apply Fn; auto.
+             ++ left. right. eauto.
+        * intros tid Hin. rewrite Hheap. apply in_app_or in Hin. destruct Hin as [Hin|Hin].
+          -- destruct (Ts tid Hin) as [t0 [Ht [H|[l [Hl Hw]]]]]; exists t0; split; auto.
+             right. exists l. split; [right; auto|auto].
+          -- destruct (Fs tid Hin) as [t0 [Ht Hw]]. exists t0. split; auto.
+             right. exists loc. split; [left; auto|auto].
+        * intros tid t0 Ht Hown. rewrite Hheap in Ht. apply in_or_app. left. eapply Oc; eauto.
+        * intros l w tid t0 [<-|Hl] Hw Ht Hown; rewrite Hheap in Ht; apply in_or_app.
+          -- right. eapply Fc; eauto.
+          -- left. eapply Lc; eauto.
+        * intros l [<-|Hl]; rewrite Hbuilt; auto.
+        * intros l x [<-|Hl] Hx.
+          -- fold t in Hx. congruence.
+          -- destruct (Xc l x Hl Hx) as [tid [t0 H]]. exists tid, t0. rewrite Hheap. auto.
+        * intros ts x Hts Hx. destruct (Ic ts x Hts Hx) as [tid [t0 H]]. exists tid, t0. rewrite Hheap. auto.
+      + apply (self_upd_ext self); auto.
+      + split; [intro w; apply (self_upd_inprog self); auto|apply self_upd_frame; auto].
+    - (* a schema document: its root goes into a Types object of the importer *)
+      destruct (Hxt eq_refl) as [x (Htsrc & Hxr & Htys & Htn)].
+      assert (Hmem : member W self t x) by (eapply m_wimp; eauto).
+      unfold s', import_schema. rewrite Hxr.
+      assert (Hown_in : forall tid, In tid (own_types self s) ->
+                 In tid (d_types d) /\ exists t0, heap_at s tid = Some t0 /\ t_owner t0 = self).
+      { intros tid Hin. unfold own_types in Hin. rewrite Hself_types in Hin. apply filter_In in Hin.
+        destruct Hin as [H1 H2]. split; auto. unfold heap_at.
+        destruct (nth_error (w_heap s) tid) as [t0|]; [|discriminate]. exists t0. split; auto.
+        apply str_eqb_eq; auto. }
+      (* the common conclusion, from a description of the new heap and types *)
+      assert (Concl : forall s2 d2,
+                self_upd self s s2 -> lookup self (w_memo s2) = Some d2 ->
+                d_wsdl d2 = true -> d_names d2 = d_names d ->
+                (forall tid, In tid (d_types d) -> In tid (d_types d2)) ->
+                (forall tid, In tid (d_types d2) -> In tid (d_types d) \/
+                             exists t0, heap_at s2 tid = Some t0 /\ t_owner t0 = self) ->
+                (forall tid t0, heap_at s tid = Some t0 ->
+                     exists t1, heap_at s2 tid = Some t1 /\ t_owner t1 = t_owner t0 /\
+                                (forall y, In y (t_roots t0) -> In y (t_roots t1)) /\
+                                (forall y, In y (t_roots t1) -> In y (t_roots t0) \/ (y = x /\ t_owner t0 = self))) ->
+                (forall tid t1, heap_at s2 tid = Some t1 -> heap_at s tid = None ->
+                     t_owner t1 = self /\ t_roots t1 = [x] /\ In tid (d_types d2)) ->
+                (exists tid t1, heap_at s2 tid = Some t1 /\ t_owner t1 = self /\ In x (t_roots t1)) ->
+                WV s2 /\ LI self own types (loc :: done) s2 /\ ext s s2 /\ (forall w, inprog s2 w <-> inprog s w) /\
+                frame_self self s s2).
+      { intros s2 d2 Hup Hl2 Hd2 Hn2 Hsub Hsup Hold Hnew Hhas.
+        assert (Hbuilt : forall u, is_built u s2 = is_built u s).
+        { intro u. destruct Hup as (_ & _ & B & _). unfold is_built. rewrite B. auto. }
+        split; [|split; [|split]].
+        - eapply WV_self_upd; eauto.
+          intros tid t1 Ht Hown y Hy. destruct (heap_at s tid) as [t0|] eqn:E0.
+          + destruct (Hold tid t0 E0) as [t1' (H1 & H2 & H3 & H4)]. assert (t1' = t1) by congruence. subst t1'.
+            destruct (H4 y Hy) as [H|[-> _]]; [|eauto].
+            destruct (Ho tid t0 E0) as (_ & _ & Hr). rewrite <- Hown, H2. auto.
+          + destruct (Hnew tid t1 Ht E0) as (_ & Hr & _). rewrite Hr in Hy. destruct Hy as [<-|[]]. eauto.
+        - exists d2. split; [exact Hl2|]. split; [rewrite Hbuilt; auto|]. split; [exact Hd2|].
+          split; [|split; [|split; [|split; [|split; [|split]]]]].
+          + intro n. rewrite Hn2, Nm. split.
+            * intros [H|[l [Hl Hn]]]; auto. right. exists l. split; [right; auto|auto].
+            * intros [H|[l [[<-|Hl] Hn]]]; auto.
+              -- exfalso. eapply names_spec_xsd; eauto.
+              -- right. eauto.
+          + intros tid Hin. destruct (Hsup tid Hin) as [H|[t0 [Ht Hown]]].
+            * destruct (Ts tid H) as [t0 [Ht Hw]]. destruct (Hold tid t0 Ht) as [t1 (H1 & H2 & _)].
+              exists t1. split; auto. rewrite H2. destruct Hw as [Hw|[l [Hl Hw]]]; auto.
+              right. exists l. split; [right; auto|auto].
+            * exists t0. auto.
+          + intros tid t1 Ht Hown. destruct (heap_at s tid) as [t0|] eqn:E0.
+            * destruct (Hold tid t0 E0) as [t1' (H1 & H2 & _)]. assert (t1' = t1) by congruence. subst t1'.
+              apply Hsub. eapply Oc; eauto. congruence.
+            * destruct (Hnew tid t1 Ht E0) as (_ & _ & H). exact H.
+          + intros l w tid t1 Hl Hw Ht Hown. destruct (heap_at s tid) as [t0|] eqn:E0.
+            * destruct (Hold tid t0 E0) as [t1' (H1 & H2 & _)]. assert (t1' = t1) by congruence. subst t1'.
+              destruct Hl as [<-|Hl].
+              -- fold t in Hw. apply (wr_xsd t x w Htsrc) in Hw. subst w.
+                 destruct (Ho tid t0 E0) as (_ & [i1 [i2 [i3 Hs0]]] & _). rewrite <- H2, Hown in Hs0. congruence.
+              -- apply Hsub. eapply Lc; eauto. congruence.
+            * destruct (Hnew tid t1 Ht E0) as (_ & _ & H). exact H.
+          + intros l [<-|Hl]; rewrite Hbuilt; auto.
+          + intros l y [<-|Hl] Hy.
+            * fold t in Hy. assert (y = x) by congruence. subst y. exact Hhas.
+            * destruct (Xc l y Hl Hy) as [tid [t0 (Ht & Hown & Hin)]].
+              destruct (Hold tid t0 Ht) as [t1 (H1 & H2 & H3 & _)]. exists tid, t1. split; auto. split; [congruence|auto].
+          + intros ts y Hts Hy. destruct (Ic ts y Hts Hy) as [tid [t0 (Ht & Hown & Hin)]].
+            destruct (Hold tid t0 Ht) as [t1 (H1 & H2 & H3 & _)]. exists tid, t1. split; auto. split; [congruence|auto].
+        - apply (self_upd_ext self); auto.
+        - split; [intro w; apply (self_upd_inprog self); auto|apply self_upd_frame; auto]. }
+      destruct (own_types self s) as [|tid0 rest] eqn:Eown.
+      + (* a new Types object of the importer *)
+        rewrite Hself_types.
+        set (tid := length (w_heap s)).
+        set (sh := set_heap (w_heap s ++ [mkT self [x]]) s).
+        assert (Hldh : lookup self (w_memo sh) = Some d) by exact Hld.
+        destruct (set_types_facts self (d_types d ++ [tid]) sh d Hldh) as (T1 & T2 & T3 & T4 & T5).
+        set (s2 := set_types self (d_types d ++ [tid]) sh) in *.
+        assert (Hheap2 : forall k, heap_at s2 k = nth_error (w_heap s ++ [mkT self [x]]) k).
+        { intro k. unfold heap_at. rewrite T3. reflexivity. }
+        apply (Concl s2 (mkD (d_wsdl d) (d_types d ++ [tid]) (d_xroot d) (d_names d))); auto.
+        * split; [|split; [|split; [|split; [|split]]]].
+          -- intros u Hu. rewrite T2; auto.
+          -- eapply lookup_has; eauto.
+          -- rewrite T4. reflexivity.
+          -- rewrite T5. reflexivity.
+          -- intros k t0 Ht _. rewrite Hheap2. unfold heap_at in Ht. rewrite nth_error_app1; auto.
+             apply nth_error_Some. congruence.
+          -- intros k t1 Ht. rewrite Hheap2 in Ht.
+             destruct (Nat.lt_ge_cases k (length (w_heap s))) as [Hlt|Hge].
+             ++ rewrite nth_error_app1 in Ht; auto.
+             ++ rewrite nth_error_app2 in Ht; auto. destruct (k - length (w_heap s)); cbn in Ht.
+                ** inversion Ht; subst. right. auto.
+                ** destruct n; discriminate.
+        * intros k Hk. apply in_or_app. left; auto.
+        * intros k Hk. cbn in Hk. apply in_app_or in Hk. destruct Hk as [Hk|[<-|[]]]; auto.
+          right. exists (mkT self [x]). split; auto. rewrite Hheap2. unfold tid.
+          rewrite nth_error_app2; auto. rewrite Nat.sub_diag. reflexivity.
+        * intros k t0 Ht. exists t0. rewrite Hheap2. unfold heap_at in Ht.
+          rewrite nth_error_app1 by (apply nth_error_Some; congruence). split; auto.
+        * intros k t1 Ht Hn. rewrite Hheap2 in Ht. unfold heap_at in Hn. apply nth_error_None in Hn.
+          rewrite nth_error_app2 in Ht; auto. destruct (k - length (w_heap s)) eqn:Ek; cbn in Ht.
+          -- inversion Ht; subst. cbn. repeat split; auto. apply in_or_app. right. left. unfold tid. lia.
+          -- destruct n; discriminate.
+        * exists tid, (mkT self [x]). rewrite Hheap2. unfold tid.
+          rewrite nth_error_app2; auto. rewrite Nat.sub_diag. cbn. auto.
+      + (* the last Types object the importer owns *)
+        set (tid := last (tid0 :: rest) 0).
+        assert (Htid : In tid (tid0 :: rest)) by (apply last_in; discriminate).
+        destruct (Hown_in tid Htid) as [Htd [t0 [Ht0 Hown0]]].
+        set (s2 := set_heap (set_nth tid (fun t => mkT (t_owner t) (t_roots t ++ [x])) (w_heap s)) s).
+        assert (Hheap2 : forall k, heap_at s2 k =
+                  if Nat.eqb k tid then option_map (fun t => mkT (t_owner t) (t_roots t ++ [x])) (heap_at s k)
+                  else heap_at s k).
+        { intro k. unfold heap_at, s2. cbn. apply nth_error_set_nth. }
+        apply (Concl s2 d); auto.
+        * split; [|split; [|split; [|split; [|split]]]]; auto.
+          -- intros k t1 Ht Hne1. rewrite Hheap2. destruct (Nat.eqb k tid) eqn:E; auto.
+             apply Nat.eqb_eq in E. subst k. congruence.
+          -- intros k t1 Ht. rewrite Hheap2 in Ht. destruct (Nat.eqb k tid) eqn:E; auto.
+             apply Nat.eqb_eq in E. subst k. rewrite Ht0 in Ht. cbn in Ht. inversion Ht; subst. right. auto.
+        * intros k t1 Ht. rewrite Hheap2. destruct (Nat.eqb k tid) eqn:E.
+          -- apply Nat.eqb_eq in E. subst k. rewrite Ht. cbn.
+             exists (mkT (t_owner t1) (t_roots t1 ++ [x])). cbn. repeat split; auto.
+             ++ intros y Hy. apply in_or_app. left; auto.
+             ++ intros y Hy. apply in_app_or in Hy. destruct Hy as [Hy|[<-|[]]]; auto.
+                right. split; auto. congruence.
+          -- exists t1. repeat split; auto.
+        * intros k t1 Ht Hn. rewrite Hheap2 in Ht. rewrite Hn in Ht. destruct (Nat.eqb k tid); discriminate.
+        * exists tid, (mkT (t_owner t0) (t_roots t0 ++ [x])). rewrite Hheap2, Nat.eqb_refl, Ht0. cbn.
+          repeat split; auto. apply in_or_app. right. left. auto.
+  Qed.
+
+  Definition RQd (o a : str) : Prop := wr W root o /\ sr W o a.
+  Definition RQ (io : IO) : Prop := reqs_ok IO reqs Pio RQd io.
+
+  Definition ld_spec (rec : str -> wst -> IO -> outcome wst * IO) : Prop :=
+    forall u s io, WV s -> RQ io -> lookup u (w_memo s) = None -> wr W root u ->
+      (forall w, inprog s w -> rank u < rank w) ->
+      match rec u s io with
+      | (Ok s', io') => WV s' /\ RQ io' /\ ext s s' /\ frame2 s s' /\ is_built u s' = true /\
+                        (forall w, inprog s' w <-> inprog s w)
+      | (_, io') => RQ io'
+      end.
+
+  Lemma built_has s u : WV s -> is_built u s = true -> has u (w_memo s) = true.
+  Proof. intros (_ & _ & Bo) H. destruct (Bo u H) as [d [Hd _]]. eapply lookup_has; eauto. Qed.
+
+  Lemma LI_frame self own types done s s' :
+    WV s -> LI self own types done s -> ext s s' -> frame2 s s' -> (forall w, inprog s' w <-> inprog s w) ->
+    LI self own types done s'.
+  Proof.
+    intros Hwv (d & Hld & Hnb & Hd & Nm & Ts & Oc & Lc & Bl & Xc & Ic) He (A & B & C) Hip.
+    assert (Hh : has self (w_memo s) = true) by (eapply lookup_has; eauto).
+    exists d. split; [apply A; auto|]. split.
+    { assert (Hi : inprog s' self) by (apply Hip; split; auto). apply Hi. }
+    split; [exact Hd|]. split; [exact Nm|].
+    assert (Old : forall tid t, heap_at s' tid = Some t -> has (t_owner t) (w_memo s) = true -> heap_at s tid = Some t).
+    { intros tid t Ht Hm. destruct (C tid t Ht); auto. congruence. }
+    split; [|split; [|split; [|split; [|split]]]].
+    - intros tid Hin. destruct (Ts tid Hin) as [t [Ht Hw]]. exists t. split; auto.
+    - intros tid t Ht Hown. eapply Oc; eauto. apply Old; auto. rewrite Hown; auto.
+    - intros l w tid t Hl Hw Ht Hown. eapply Lc; eauto. apply Old; auto.
+      destruct Hwv as (Mw & Ho & Bo). destruct (Bo (join self l) (Bl l Hl)) as [dl [_ Hf]].
+      destruct Hf as (_ & _ & _ & _ & Fa & _). rewrite Hown.
+      apply (built_has s w); [split; [|split]; auto|]. apply Fa; auto.
+    - intros l Hl. eapply ext_built; eauto.
+    - intros l x Hl Hx. destruct (Xc l x Hl Hx) as [tid [t (Ht & H1 & H2)]]. exists tid, t. auto.
+    - intros ts x Hts Hx. destruct (Ic ts x Hts Hx) as [tid [t (Ht & H1 & H2)]]. exists tid, t. auto.
+  Qed.
+
+  Lemma loop_imports_collect rec self own allimps types :
+    ld_spec rec -> wr W root self -> src W self = Some (DWsdl allimps types own) ->
+    forall imps done s io, (forall l, In l imps -> In l allimps) ->
+      WV s -> RQ io -> LI self own types done s -> (forall w, inprog s w -> rank self <= rank w) ->
+      match loop_imports IO rec self imps s io with
+      | (Ok s', io') => WV s' /\ RQ io' /\ LI self own types (rev imps ++ done) s' /\ ext s s' /\
+                        frame_self self s s' /\ (forall w, inprog s' w <-> inprog s w)
+      | (_, io') => RQ io'
+      end.
+  Proof.
+    intros Hrec Hroot Hsself. induction imps as [|loc rest IH]; intros done s io Hin Hwv Hrq Hli Hrk; cbn.
+    - split; auto. split; auto. split; auto. split; [apply ext_refl|]. split; [apply frame_self_refl|tauto].
+    - set (t := join self loc).
+      assert (Hloc : In loc allimps) by (apply Hin; left; auto).
+      pose proof (Ranked self allimps types own loc Hsself Hloc) as Hlt. fold t in Hlt.
+      assert (Hself_ip : inprog s self).
+      { destruct Hli as (d & Hld & Hnb & _). split; auto. eapply lookup_has; eauto. }
+      assert (Step : forall s1 io1, WV s1 -> RQ io1 -> LI self own types done s1 ->
+                (forall w, inprog s1 w <-> inprog s w) -> ext s s1 -> frame_self self s s1 ->
+                is_built t s1 = true ->
+                match (match lookup t (w_memo s1) with
+                       | Some d => loop_imports IO rec self rest
+                                     (if d_wsdl d then import_definitions self d s1
+                                      else import_schema self d s1) io1
+                       | None => (Raised 9, io1)
+                       end) with
+                | (Ok s', io') => WV s' /\ RQ io' /\ LI self own types (rev (loc :: rest) ++ done) s' /\
+                                  ext s s' /\ frame_self self s s' /\ (forall w, inprog s' w <-> inprog s w)
+                | (_, io') => RQ io'
+                end).
+      { intros s1 io1 Hwv1 Hrq1 Hli1 Hip1 He1 Hf1 Hbt.
+        pose proof (built_has s1 t Hwv1 Hbt) as Hht. apply has_true_lookup in Hht. destruct Hht as [dt Hdt].
+        rewrite Hdt.
+        destruct (import_step self own allimps types done loc s1 dt Hwv1 Hli1 Hroot Hsself Hloc Hbt Hdt)
+          as (Hwv2 & Hli2 & He2 & Hip2 & Hf2).
+        set (s2 := if d_wsdl dt then import_definitions self dt s1 else import_schema self dt s1) in *.
+        specialize (IH (loc :: done) s2 io1 (fun l Hl => Hin l (or_intror Hl)) Hwv2 Hrq1 Hli2).
+        assert (Hrk2 : forall w, inprog s2 w -> rank self <= rank w).
+        { intros w Hw. apply Hrk. apply Hip1. apply Hip2. auto. }
+        specialize (IH Hrk2).
+        destruct (loop_imports IO rec self rest s2 io1) as [[s3|k|] io3]; auto.
+        destruct IH as (Hwv3 & Hrq3 & Hli3 & He3 & Hf3 & Hip3).
+        split; auto. split; auto. split.
+        { cbn [rev]. rewrite <- app_assoc. exact Hli3. }
+        split; [eapply ext_trans; [exact He1|eapply ext_trans; eauto]|].
+        split; [eapply frame_self_trans; [exact Hf1|eapply frame_self_trans; eauto]|].
+        intro w. rewrite Hip3, Hip2, Hip1. tauto. }
+      destruct (lookup t (w_memo s)) as [d0|] eqn:El.
+      + (* already constructed: it cannot be one of the documents in progress *)
+        assert (Hbt : is_built t s = true).
+        { destruct (is_built t s) eqn:E; auto. exfalso.
+          assert (Hi : inprog s t) by (split; auto; eapply lookup_has; eauto).
+          apply Hrk in Hi. lia. }
+        rewrite Hbt. apply Step; auto; try tauto. apply ext_refl. apply frame_self_refl.
+      + assert (Hrt : wr W root t) by (eapply wr_step; eauto).
+        assert (Hpre : forall w, inprog s w -> rank t < rank w).
+        { intros w Hw. apply Hrk in Hw. lia. }
+        pose proof (Hrec t s io Hwv Hrq El Hrt Hpre) as Hr.
+        destruct (rec t s io) as [[s1|k|] io1]; auto.
+        destruct Hr as (Hwv1 & Hrq1 & He1 & Hf1 & Hb1 & Hip1).
+        apply Step; auto.
+        * apply (LI_frame self own types done s s1); auto.
+        * apply frame2_self; auto.
+  Qed.
+
+  Lemma mark_built_facts u tab sh s2 :
+    is_built u s2 = false ->
+    let s' := mark_built u tab sh s2 in
+    ext s2 s' /\ frame2 s2 s' /\ is_built u s' = true /\ schema_of u s' = tab /\
+    (forall w, inprog s' w <-> inprog s2 w /\ w <> u) /\
+    (forall w, str_eqb w u = false -> is_built w s' = is_built w s2 /\ schema_of w s' = schema_of w s2).
+  Proof.
+    intros Hb s'.
+    assert (Lk : forall w, lookup w (w_built s') = if str_eqb w u then Some tab else lookup w (w_built s2)).
+    { intro w. reflexivity. }
+    split; [|split; [|split; [|split; [|split]]]].
+    - apply ext_intro; auto.
+      + intros w t Ht. rewrite Lk. destruct (str_eqb w u) eqn:E; auto.
+        apply str_eqb_eq in E. subst. unfold is_built in Hb. rewrite Ht in Hb. discriminate.
+      + cbn. intro H. apply orb_false_iff in H. tauto.
+    - split; [|split]; auto.
+    - unfold is_built. rewrite Lk, str_eqb_refl. auto.
+    - unfold schema_of. rewrite Lk, str_eqb_refl. auto.
+    - intro w. unfold inprog, is_built. rewrite Lk. cbn [w_memo s' mark_built].
+      destruct (str_eqb w u) eqn:E.
+      + apply str_eqb_eq in E. subst. split; [intros [_ H]; discriminate|intros [_ H]; contradiction].
+      + split; [intros [H1 H2]; split; [split; auto|]|intros [[H1 H2] _]; split; auto].
+        intro E'. subst. rewrite str_eqb_refl in E. discriminate.
+    - intros w Hw. unfold is_built, schema_of. rewrite Lk, Hw. auto.
+  Qed.
+
+  Lemma RQ_domw u io : RQ io -> RQ (snd (opn DomW u io)).
+  Proof.
+    intros [P H]. split; [apply Pio_opn; auto|].
+    intros o a Hin. rewrite Hreq in Hin. destruct Hin as [E|Hin]; [discriminate|auto].
+  Qed.
+
+  Lemma load_defs_collect fuel : ld_spec (load_defs IO opn univ fuel).
+  Proof.
+    induction fuel as [|f IH]; intros u s io Hwv Hrq Hn Hru Hrk; cbn; [exact Hrq|].
+    pose proof (RQ_domw u io Hrq) as Hrq1.
+    pose proof (Hsrc DomW u io) as Hs.
+    destruct (opn DomW u io) as [o io1]; cbn in Hrq1, Hs.
+    destruct o as [d|]; [|exact Hrq1].
+    specialize (Hs d (proj1 Hrq) eq_refl).
+    assert (Hnb : is_built u s = false).
+    { destruct (is_built u s) eqn:E; auto. apply (built_has s u Hwv) in E. rewrite (has_none _ _ Hn) in E. discriminate. }
+    assert (Hnh : has u (w_memo s) = false) by (apply has_none; auto).
+    destruct Hwv as (Mw & Ho & Bo). assert (Hwv : WV s) by (split; [|split]; auto).
+    destruct d as [imps types names|x|]; [| |exact Hrq1].
+    - (* a WSDL document *)
+      rewrite alloc_types_spec.
+      set (heap1 := w_heap s ++ map (mkT u) types).
+      set (tids := seq (length (w_heap s)) (length types)).
+      set (s1 := reg_wsdl u tids names heap1 s).
+      assert (Lk1 : forall w, lookup w (w_memo s1) = if str_eqb w u then Some (mkD true tids None names) else lookup w (w_memo s))
+        by (intro; reflexivity).
+      assert (Hp1 : forall k t, heap_at s k = Some t -> heap_at s1 k = Some t).
+      { intros k t Ht. unfold heap_at in *. cbn. unfold heap1. rewrite nth_error_app1; auto.
+        apply nth_error_Some. congruence. }
+      assert (Hnew1 : forall k t, heap_at s1 k = Some t -> heap_at s k = None ->
+                 exists ts, t = mkT u ts /\ nth_error types (k - length (w_heap s)) = Some ts /\ In k tids).
+      { intros k t Ht Hnone. unfold heap_at in *. cbn in Ht. unfold heap1 in Ht.
+        apply nth_error_None in Hnone. rewrite nth_error_app2 in Ht; auto.
+        rewrite nth_error_map in Ht. destruct (nth_error types (k - length (w_heap s))) as [ts|] eqn:E; [|discriminate].
+        inversion Ht; subst. exists ts. split; auto. split; auto. unfold tids. apply in_seq.
+        assert (k - length (w_heap s) < length types) by (apply nth_error_Some; congruence). lia. }
+      assert (Hold1 : forall k t, heap_at s1 k = Some t -> heap_at s k = Some t \/ (heap_at s k = None /\ t_owner t = u)).
+      { intros k t Ht. destruct (heap_at s k) as [t0|] eqn:E.
+        - left. rewrite (Hp1 k t0 E) in Ht. auto.
+        - right. split; auto. destruct (Hnew1 k t Ht E) as [ts [-> _]]. auto. }
+      assert (He1 : ext s s1).
+      { apply ext_intro; auto.
+        - intros w d Hl _. rewrite Lk1. destruct (str_eqb w u) eqn:E; auto.
+          apply str_eqb_eq in E. subst. congruence.
+        - intros w Hw. unfold has in *. rewrite Lk1. destruct (str_eqb w u); auto.
+        - intros k t Ht. destruct (Hold1 k t Ht) as [H|[_ H]]; auto. right. rewrite H. auto. }
+      assert (Hf1 : frame2 s s1).
+      { split; [|split]; auto.
+        - intros w d Hl. rewrite Lk1. destruct (str_eqb w u) eqn:E; auto.
+          apply str_eqb_eq in E. subst. congruence.
+        - intros k t Ht. destruct (Hold1 k t Ht) as [H|[_ H]]; auto. right. rewrite H. auto. }
+      assert (Hip1 : forall w, inprog s1 w <-> inprog s w \/ w = u).
+      { intro w. unfold inprog, has, is_built. rewrite Lk1. cbn [w_built s1 reg_wsdl].
+        destruct (str_eqb w u) eqn:E.
+        - apply str_eqb_eq in E. subst. unfold is_built in Hnb. rewrite Hnb. tauto.
+        - split; [tauto|]. intros [H|H]; auto. subst. rewrite str_eqb_refl in E. discriminate. }
+      assert (Hwv1 : WV s1).
+      { split; [|split].
+        - intros w d Hl. rewrite Lk1 in Hl. destruct (str_eqb w u) eqn:E.
+          + apply str_eqb_eq in E. subst. inversion Hl; subst. cbn. split; auto. split; eauto. discriminate.
+          + apply Mw; auto.
+        - intros k t Ht. destruct (Hold1 k t Ht) as [H|[Hnone Hown]].
+          + destruct (Ho k t H) as (H1 & H2 & H3). split; auto. destruct He1 as (_ & Hm & _). auto.
+          + destruct (Hnew1 k t Ht Hnone) as [ts [-> [Hts _]]]. cbn. split; [|split; eauto].
+            * unfold has. rewrite Lk1, str_eqb_refl. auto.
+            * intros y Hy. exists u. eapply m_inline; eauto. eapply nth_error_In; eauto.
+        - intros w Hb. assert (Hb0 : is_built w s = true) by exact Hb.
+          destruct (Bo w Hb0) as [d [Hl Hf]]. exists d. split.
+          + destruct He1 as (A & _). apply A; auto.
+          + eapply Fin_ext; eauto. }
+      assert (Hli1 : LI u names types [] s1).
+      { exists (mkD true tids None names). split; [rewrite Lk1, str_eqb_refl; auto|]. split; [exact Hnb|].
+        split; [reflexivity|]. cbn [d_names d_types].
+        split; [|split; [|split; [|split; [|split; [|split]]]]].
+        - intro n. split; auto. intros [H|[l [[] _]]]; auto.
+        - intros k Hk. unfold tids in Hk. apply in_seq in Hk.
+          destruct (nth_error types (k - length (w_heap s))) as [ts|] eqn:E.
+          + exists (mkT u ts). split; auto. unfold heap_at. cbn. unfold heap1.
+            rewrite nth_error_app2 by lia. rewrite nth_error_map, E. auto.
+          + apply nth_error_None in E. lia.
+        - intros k t Ht Hown. destruct (Hold1 k t Ht) as [H|[Hnone _]].
+          + destruct (Ho k t H) as (H1 & _). rewrite Hown in H1. congruence.
+          + destruct (Hnew1 k t Ht Hnone) as [ts [_ [_ H]]]. exact H.
+        - intros l w k t [].
+        - intros l [].
+        - intros l x [].
+        - intros ts x Hts Hx. apply In_nth_error in Hts. destruct Hts as [i Hi].
+          exists (length (w_heap s) + i), (mkT u ts). split; [|split; auto].
+          unfold heap_at. cbn. unfold heap1. rewrite nth_error_app2 by lia.
+          replace (length (w_heap s) + i - length (w_heap s)) with i by lia.
+          rewrite nth_error_map, Hi. auto. }
+      assert (Hrk1 : forall w, inprog s1 w -> rank u <= rank w).
+      { intros w Hw. apply Hip1 in Hw. destruct Hw as [Hw| ->]; auto. apply Hrk in Hw. lia. }
+      pose proof (loop_imports_collect (load_defs IO opn univ f) u names imps types IH Hru Hs imps [] s1 io1
+                    (fun l h => h) Hwv1 Hrq1 Hli1 Hrk1) as Hl.
+      destruct (loop_imports IO (load_defs IO opn univ f) u imps s1 io1) as [[s2|k|] io2]; auto.
+      destruct Hl as (Hwv2 & Hrq2 & Hli2 & He2 & Hf2 & Hip2).
+      rewrite app_nil_r in Hli2.
+      destruct Hli2 as (d2 & Hld2 & Hnb2 & Hd2 & Nm & Ts & Oc & Lc & Bl & Xc & Ic).
+      assert (Hdone : forall l, In l imps -> In l (rev imps)) by (intros l Hl; apply in_rev in Hl; auto).
+      assert (Hdone' : forall l, In l (rev imps) -> In l imps) by (intros l Hl; apply in_rev; auto).
+      destruct Hwv2 as (Mw2 & Ho2 & Bo2). assert (Hwv2 : WV s2) by (split; [|split]; auto).
+      assert (Hst2 : self_types u s2 = d_types d2) by (unfold self_types; rewrite Hld2; auto).
+      (* the finished imports *)
+      assert (FinI : forall l, In l imps -> exists dl, lookup (join u l) (w_memo s2) = Some dl /\ Fin s2 (join u l) dl).
+      { intros l Hl. apply Bo2. apply Bl. auto. }
+      (* the roots this document builds itself are exactly its collection *)
+      assert (OwnerOf : forall tid t, In tid (d_types d2) -> heap_at s2 tid = Some t ->
+                 t_owner t = u \/ (wr W u (t_owner t) /\ is_built (t_owner t) s2 = true)).
+      { intros tid t Hin Ht. destruct (Ts tid Hin) as [t' [Ht' Hw]]. assert (t' = t) by congruence. subst t'.
+        destruct Hw as [Hw|[l [Hl Hw]]]; auto. right.
+        destruct (FinI l (Hdone' l Hl)) as [dl [_ (_ & _ & _ & _ & Fa & _)]].
+        split; [eapply wr_first; eauto|apply Fa; auto]. }
+      set (roots := local_roots u s2).
+      assert (RootsSound : forall x, In x roots -> exists b, member W u b x).
+      { intros x Hx. unfold roots, local_roots in Hx. rewrite Hst2 in Hx. apply in_flat_map in Hx.
+        destruct Hx as [tid [Hin Hx]]. unfold heap_at in *.
+        destruct (nth_error (w_heap s2) tid) as [t|] eqn:Et; [|destruct Hx].
+        destruct (is_built (t_owner t) s2) eqn:Eb; [destruct Hx|].
+        destruct (OwnerOf tid t Hin Et) as [Hown|[_ Hb]]; [|congruence].
+        destruct (Ho2 tid t Et) as (_ & _ & Hr). rewrite <- Hown. auto. }
+      assert (OwnRoots : forall tid t x, heap_at s2 tid = Some t -> t_owner t = u -> In x (t_roots t) -> In x roots).
+      { intros tid t x Ht Hown Hx. unfold roots, local_roots. rewrite Hst2. apply in_flat_map.
+        exists tid. split; [eapply Oc; eauto|]. unfold heap_at in Ht. rewrite Ht, Hown, Hnb2. auto. }
+      assert (RootsComplete : forall b x, member W u b x -> In x roots).
+      { intros b x Hm. destruct Hm as [imps0 types0 names0 ts x Hw Hts Hx|imps0 types0 names0 l x Hw Hl Hx].
+        - assert (types0 = types) by congruence. subst types0.
+          destruct (Ic ts x Hts Hx) as [tid [t (Ht & Hown & Hin)]]. eapply OwnRoots; eauto.
+        - assert (imps0 = imps) by congruence. subst imps0.
+          destruct (Xc l x (Hdone l Hl) Hx) as [tid [t (Ht & Hown & Hin)]]. eapply OwnRoots; eauto. }
+      assert (RQd_u : forall a, sr W u a -> RQd u a) by (intros a Ha; split; auto).
+      pose proof (build_schema_collect W IO opn univ reqs Pio Hreq Pio_opn Hsrc NoCham u RQd RQd_u roots
+                    RootsSound RootsComplete (BaseOK_l u) io2 Hrq2) as Hb.
+      fold roots.
+      destruct (build_schema IO opn univ u roots io2) as [[s3|k|] io3]; auto.
+      destruct Hb as [Hrq3 Htab].
+      set (tab := final_tab roots s3 ++ imported_tabs u s2).
+      destruct (mark_built_facts u tab (s_shadow s3) s2 Hnb2) as (He3 & Hf3 & Hb3 & Hsch3 & Hip3 & Hoth3).
+      set (s' := mark_built u tab (s_shadow s3) s2) in *.
+      assert (Hheap' : forall k, heap_at s' k = heap_at s2 k) by (intro; reflexivity).
+      assert (Hmemo' : forall w, lookup w (w_memo s') = lookup w (w_memo s2)) by (intro; reflexivity).
+      (* the new document is finished *)
+      assert (Wr1 : forall l w, In l imps -> wr W (join u l) w -> wr W u w).
+      { intros l w Hl Hw. eapply wr_first; eauto. }
+      assert (FinU : Fin s' u d2).
+      { split; [|split; [|split; [|split; [|split]]]].
+        - intro n. rewrite Nm. split.
+          + intros [H|[l [Hl (w & i1 & t1 & n1 & Hw & Hsw & Hn1)]]].
+            * exists u, imps, types, names. split; [constructor|auto].
+            * exists w, i1, t1, n1. split; auto. eapply Wr1; eauto.
+          + intros (w & i1 & t1 & n1 & Hw & Hsw & Hn1).
+            destruct (wr_inv_first u w Hw) as [->|(i0 & t0 & n0 & l & Hs0 & Hl & Hw')].
+            * left. congruence.
+            * right. assert (i0 = imps) by congruence. subst i0. exists l. split; auto.
+              exists w, i1, t1, n1. auto.
+        - intros tid Hin. destruct (Ts tid Hin) as [t [Ht Hw]]. exists t. rewrite Hheap'. split; auto.
+          destruct Hw as [->|[l [Hl Hw]]]; [constructor|]. eapply Wr1; eauto.
+        - intros w tid t Hw Ht Hown. rewrite Hheap' in Ht.
+          destruct (wr_inv_first u w Hw) as [->|(i0 & t0 & n0 & l & Hs0 & Hl & Hw')].
+          + eapply Oc; eauto.
+          + assert (i0 = imps) by congruence. subst i0. eapply Lc; eauto.
+        - intros Hsh q. rewrite Hsch3. cbn in Hsh. apply orb_false_iff in Hsh. destruct Hsh as [Hsh2 Hsh3].
+          unfold tab. rewrite in_app_iff. split.
+          + intros [Hq|Hq].
+            * exists u. split; [constructor|]. apply Htab; auto.
+            * unfold imported_tabs in Hq. rewrite Hst2 in Hq. apply in_flat_map in Hq.
+              destruct Hq as [tid [Hin Hq]]. unfold heap_at in *.
+              destruct (nth_error (w_heap s2) tid) as [t|] eqn:Et; [|destruct Hq].
+              destruct (OwnerOf tid t Hin Et) as [Hown|[Hw Hbt]].
+              -- rewrite Hown in Hq. unfold schema_of, is_built in *.
+                 destruct (lookup u (w_built s2)); [discriminate|destruct Hq].
+              -- destruct (Bo2 _ Hbt) as [dw [_ (_ & _ & _ & Ft & _)]].
+                 apply (Ft Hsh2) in Hq. destruct Hq as [w' [Hw' Hsd]]. exists w'. split; auto.
+                 eapply wr_trans; eauto.
+          + intros [w [Hw Hsd]].
+            destruct (wr_inv_first u w Hw) as [->|(i0 & t0 & n0 & l & Hs0 & Hl & Hw')].
+            * left. apply Htab; auto.
+            * right. assert (i0 = imps) by congruence. subst i0.
+              destruct (FinI l Hl) as [dl [_ (_ & _ & _ & _ & Fa & Fm)]].
+              destruct (sd_member_ex w q Hsd) as [b [x Hm]].
+              destruct (Fm w b x Hw' Hm) as [tid [t (Ht & Hown & _)]].
+              assert (Hin : In tid (d_types d2)) by (eapply Lc; eauto).
+              unfold imported_tabs. rewrite Hst2. apply in_flat_map. exists tid. split; auto.
+              unfold heap_at in Ht. rewrite Ht, Hown.
+              destruct (Bo2 w (Fa w Hw')) as [dw [_ (_ & _ & _ & Ft & _)]].
+              apply (Ft Hsh2). exists w. split; [constructor|auto].
+        - intros w Hw. destruct (wr_inv_first u w Hw) as [->|(i0 & t0 & n0 & l & Hs0 & Hl & Hw')]; auto.
+          assert (i0 = imps) by congruence. subst i0.
+          destruct (FinI l Hl) as [dl [_ (_ & _ & _ & _ & Fa & _)]].
+          eapply ext_built; eauto.
+        - intros w b x Hw Hm.
+          destruct (wr_inv_first u w Hw) as [->|(i0 & t0 & n0 & l & Hs0 & Hl & Hw')].
+          + destruct Hm as [imps0 types0 names0 ts x Hw0 Hts Hx|imps0 types0 names0 l x Hw0 Hl Hx].
+            * assert (types0 = types) by congruence. subst types0. apply (Ic ts x Hts Hx).
+            * assert (imps0 = imps) by congruence. subst imps0. apply (Xc l x (Hdone l Hl) Hx).
+          + assert (i0 = imps) by congruence. subst i0.
+            destruct (FinI l Hl) as [dl [_ (_ & _ & _ & _ & _ & Fm)]]. apply (Fm w b x Hw' Hm). }
+      assert (Hwv' : WV s').
+      { split; [|split]; auto.
+        intros w Hb. destruct (str_eqb w u) eqn:E.
+        - apply str_eqb_eq in E. subst w. exists d2. split; auto.
+        - destruct (Hoth3 w E) as [Hbw _]. rewrite Hbw in Hb.
+          destruct (Bo2 w Hb) as [dw [Hl Hf]]. exists dw. split; auto. eapply Fin_ext; eauto. }
+      split; [exact Hwv'|]. split; [exact Hrq3|].
+      split; [eapply ext_trans; [exact He1|eapply ext_trans; [exact He2|exact He3]]|].
+      split.
+      { (* nothing that existed before is touched *)
+        destruct Hf2 as (A2 & B2 & C2 & D2).
+        split; [|split].
+        - intros w d Hl. rewrite Hmemo'. apply A2.
+          + destruct (str_eqb w u) eqn:E; auto. apply str_eqb_eq in E. subst. congruence.
+          + destruct Hf1 as (A1 & _). auto.
+        - intros k t Ht. rewrite Hheap'. apply B2; auto.
+          destruct (Ho k t Ht) as (Hm & _). intro E. rewrite E in Hm. congruence.
+        - intros k t Ht. rewrite Hheap' in Ht. destruct (C2 k t Ht) as [H|[H|H]].
+          + destruct (Hold1 k t H) as [H0|[_ H0]]; auto. right. rewrite H0. auto.
+          + right. rewrite H. auto.
+          + right. destruct (has (t_owner t) (w_memo s)) eqn:E; auto.
+            destruct He1 as (_ & Hm & _). apply Hm in E. congruence. }
+      split; [exact Hb3|].
+      intro w. rewrite Hip3, Hip2, Hip1. split.
+      + intros [[H| ->] Hne]; auto. contradiction.
+      + intro H. split; auto. intro E. subst. destruct H as [H _]. congruence.
+    - (* a schema document under wsdl:import *)
+      set (s1 := reg_xsd u x s).
+      assert (Lk1 : forall w, lookup w (w_memo s1) = if str_eqb w u then Some (mkD false [] (Some x) []) else lookup w (w_memo s))
+        by (intro; reflexivity).
+      assert (Hnb1 : is_built u s1 = false) by exact Hnb.
+      destruct (mark_built_facts u [] false s1 Hnb1) as (He3 & Hf3 & Hb3 & Hsch3 & Hip3 & Hoth3).
+      set (s' := mark_built u [] false s1) in *.
+      assert (He1 : ext s s1).
+      { apply ext_intro; auto.
+        - intros w d Hl _. rewrite Lk1. destruct (str_eqb w u) eqn:E; auto.
+          apply str_eqb_eq in E. subst. congruence.
+        - intros w Hw. unfold has in *. rewrite Lk1. destruct (str_eqb w u); auto. }
+      assert (He : ext s s') by (eapply ext_trans; eauto).
+      assert (Hxsd_no_member : forall b y, ~ member W u b y).
+      { intros b y Hm. destruct (member_wsdl u b y Hm) as [i1 [t1 [n1 H1]]]. congruence. }
+      split; [|split; [exact Hrq1|split; [exact He|split; [|split; [exact Hb3|]]]]].
+      + split; [|split].
+        * intros w d Hl. change (lookup w (w_memo s1) = Some d) in Hl. rewrite Lk1 in Hl.
+          destruct (str_eqb w u) eqn:E.
+          -- apply str_eqb_eq in E. subst. inversion Hl; subst. cbn. split; auto. split; [discriminate|eauto].
+          -- apply Mw; auto.
+        * intros k t Ht. destruct (Ho k t Ht) as (H1 & H2 & H3). split; auto.
+          destruct He as (_ & Hm & _). auto.
+        * intros w Hb. destruct (str_eqb w u) eqn:E.
+          -- apply str_eqb_eq in E. subst w. exists (mkD false [] (Some x) []).
+             split; [change (lookup u (w_memo s1) = Some (mkD false [] (Some x) [])); rewrite Lk1, str_eqb_refl; auto|].
+             split; [|split; [|split; [|split; [|split]]]].
+             ++ intro n. cbn. split; [intros []|]. intro H. exfalso. eapply names_spec_xsd; eauto.
+             ++ intros tid [].
+             ++ intros w tid t Hw Ht Hown. apply (wr_xsd u x w Hs) in Hw. subst w.
+                destruct (Ho tid t Ht) as (_ & [i1 [t1 [n1 H1]]] & _). rewrite Hown in H1. congruence.
+             ++ intros _ q. rewrite Hsch3. split; [intros []|]. intros [w [Hw Hsd]].
+                apply (wr_xsd u x w Hs) in Hw. subst w. destruct (sd_member_ex u q Hsd) as [b [y Hm]].
+                destruct (Hxsd_no_member b y Hm).
+             ++ intros w Hw. apply (wr_xsd u x w Hs) in Hw. subst w. auto.
+             ++ intros w b y Hw Hm. apply (wr_xsd u x w Hs) in Hw. subst w. destruct (Hxsd_no_member b y Hm).
+          -- destruct (Hoth3 w E) as [Hbw _]. rewrite Hbw in Hb. assert (Hb0 : is_built w s = true) by exact Hb.
+             destruct (Bo w Hb0) as [dw [Hl Hf]]. exists dw. split.
+             ++ destruct He as (A & _). apply A; auto.
+             ++ eapply Fin_ext; eauto.
+      + split; [|split]; auto.
+        intros w d Hl. change (lookup w (w_memo s1) = Some d). rewrite Lk1. destruct (str_eqb w u) eqn:E; auto.
+        apply str_eqb_eq in E. subst. congruence.
+      + intro w. rewrite Hip3. unfold inprog, has, is_built. rewrite Lk1. cbn [w_built s1 reg_xsd].
+        destruct (str_eqb w u) eqn:E.
+        * apply str_eqb_eq in E. subst. unfold is_built in Hnb. rewrite Hnb. unfold has in Hnh. 
+          destruct (lookup u (w_memo s)); [discriminate|]. split; [intros [_ H]; contradiction|intros [H _]; discriminate].
+        * split; [tauto|]. intro H. split; auto. intro E'. subst. rewrite str_eqb_refl in E. discriminate.
+  Qed.
 End WsdlCollect.
+
+(* ------------------------------------------------------------------ *)
+(* the concrete loader: guards as booleans, final statements           *)
+(* ------------------------------------------------------------------ *)
+
+Definition is_some {A} (o : option A) : bool := match o with Some _ => true | None => false end.
+
+(* no schema document without a target namespace (chameleon includes are
+   covered by the executed correspondence only) *)
+Definition no_chameleon (W : world) : bool :=
+  forallb (fun e => match snd (snd e) with DXsd x => is_some (x_tns x) | _ => true end) (w_docs W).
+
+(* excludes C12:wsdl-import-xsd-relative-base: a schema document that is the
+   target of a wsdl:import has absolute locations only *)
+Definition wimp_abs (W : world) : bool :=
+  forallb (fun e => match snd (snd e) with
+                    | DWsdl imps _ _ =>
+                        forallb (fun l => match src W (join (fst e) l) with
+                                          | Some (DXsd x) => forallb has_scheme (refs_of_x x)
+                                          | _ => true
+                                          end) imps
+                    | _ => true
+                    end) (w_docs W).
+
+(* excludes the two WSDL cycle findings: [rk] ranks the documents so that
+   every wsdl:import goes to a lower rank *)
+Definition rank_of (rk : list (str * nat)) (u : str) : nat :=
+  match lookup u rk with Some n => n | None => 0 end.
+Definition ranked (W : world) (rk : list (str * nat)) : bool :=
+  forallb (fun e => match snd (snd e) with
+                    | DWsdl imps _ _ => forallb (fun l => Nat.ltb (rank_of rk (join (fst e) l)) (rank_of rk (fst e))) imps
+                    | _ => true
+                    end) (w_docs W).
+
+Definition guards (W : world) (rk : list (str * nat)) : bool :=
+  no_chameleon W && wimp_abs W && ranked W rk.
+
+Lemma src_in W u d : src W u = Some d -> exists b, In (u, (b, d)) (w_docs W).
+Proof.
+  unfold src. destruct (lookup u (w_docs W)) as [[b d']|] eqn:E; [|discriminate].
+  intro H. inversion H; subst. exists b. apply lookup_in. auto.
+Qed.
+
+Lemma no_chameleon_l W : no_chameleon W = true -> forall a x, src W a = Some (DXsd x) -> x_tns x <> None.
+Proof.
+  intros G a x Hs. destruct (src_in W a _ Hs) as [b Hin]. unfold no_chameleon in G.
+  rewrite forallb_forall in G. specialize (G _ Hin). cbn in G. destruct (x_tns x); [discriminate|discriminate].
+Qed.
+
+Lemma wimp_abs_l W : wimp_abs W = true -> forall v imps types names l x,
+  src W v = Some (DWsdl imps types names) -> In l imps -> src W (join v l) = Some (DXsd x) ->
+  forall l', In l' (refs_of_x x) -> has_scheme l' = true.
+Proof.
+  intros G v imps types names l x Hs Hl Hx l' Hl'. destruct (src_in W v _ Hs) as [b Hin].
+  unfold wimp_abs in G. rewrite forallb_forall in G. specialize (G _ Hin). cbn in G.
+  rewrite forallb_forall in G. specialize (G l Hl). rewrite Hx in G. rewrite forallb_forall in G. auto.
+Qed.
+
+Lemma ranked_l W rk : ranked W rk = true -> forall v imps types names l,
+  src W v = Some (DWsdl imps types names) -> In l imps -> rank_of rk (join v l) < rank_of rk v.
+Proof.
+  intros G v imps types names l Hs Hl. destruct (src_in W v _ Hs) as [b Hin].
+  unfold ranked in G. rewrite forallb_forall in G. specialize (G _ Hin). cbn in G.
+  rewrite forallb_forall in G. specialize (G l Hl). apply Nat.ltb_lt in G. exact G.
+Qed.
+
+Transparent load_root.
+Lemma load_collect_l W rk root i :
+  guards W rk = true -> cache_sound W (i_dcache i) -> i_reqs i = [] ->
+  match load_root io (opn_c W) (docs_of W) root i with
+  | (Ok s, i') =>
+      (forall o a, In (DomS o, a) (i_reqs i') -> wr W root o /\ sr W o a) /\
+      (w_shadow s = false ->
+       (forall n, In n (fst (collected root s)) <-> names_spec W root n) /\
+       (forall q, In q (snd (collected root s)) <-> decls_spec W root q))
+  | (_, i') => forall o a, In (DomS o, a) (i_reqs i') -> wr W root o /\ sr W o a
+  end.
+Proof.
+  intros G Hs Er. unfold guards in G. apply andb_true_iff in G. destruct G as [G Gr].
+  apply andb_true_iff in G. destruct G as [Gc Ga].
+  pose proof (load_defs_collect W io (opn_c W) (docs_of W) i_reqs (fun x => cache_sound W (i_dcache x))
+                (opn_c_reqs W) (fun d u x => opn_c_sound W d u x) (fun d u x y => opn_c_src W d u x y)
+                (no_chameleon_l W Gc) (wimp_abs_l W Ga) (rank_of rk) (ranked_l W rk Gr) root
+                (S (length (docs_of W))) root wst0 i) as L.
+  unfold load_root.
+  assert (Hwv0 : WV W root wst0).
+  { split; [|split].
+    - intros u d H. discriminate.
+    - intros tid t H. unfold heap_at in H. destruct tid; discriminate.
+    - intros u H. discriminate. }
+  assert (Hrq0 : RQ W io i_reqs (fun x => cache_sound W (i_dcache x)) root i).
+  { split; auto. rewrite Er. intros o a []. }
+  specialize (L Hwv0 Hrq0 eq_refl (wr_refl W root)).
+  assert (Hip0 : forall w, inprog wst0 w -> rank_of rk root < rank_of rk w).
+  { intros w [H _]. discriminate. }
+  specialize (L Hip0).
+  destruct (load_defs io (opn_c W) (docs_of W) (S (length (docs_of W))) root wst0 i) as [[s|k|] i'].
+  - destruct L as (Hwv & Hrq & _ & _ & Hb & _). split; [apply Hrq|].
+    intro Hsh. destruct Hwv as (_ & _ & Bo). destruct (Bo root Hb) as [d [Hl (Fn & _ & _ & Ft & _)]].
+    unfold collected, self_names. rewrite Hl. cbn. split; [exact Fn|apply Ft; auto].
+  - apply L.
+  - apply L.
+Qed.
+Opaque load_root.
+
+(* every request of a schema loader is for a reachable document *)
+Lemma schema_requests_reachable_l W rk root oc i :
+  guards W rk = true -> cache_sound W (i_dcache i) -> i_reqs i = [] -> i_log i = [] ->
+  forall o a, In (DomS o, a) (fetches (i_log (snd (fst (client_load W root oc i))))) -> reach W root a.
+Proof.
+  intros G Hs Er El o a Hin.
+  destruct (client_io W root oc i) as [E|E]; rewrite E in Hin.
+  - rewrite El in Hin. destruct Hin.
+  - apply (incl_fetches_reqs W root i Er El) in Hin.
+    pose proof (load_collect_l W rk root i G Hs Er) as L.
+    destruct (load_root io (opn_c W) (docs_of W) root i) as [[s|k|] i']; cbn in Hin.
+    + destruct L as [L _]. destruct (L o a Hin) as [Hw Hsr]. eapply sr_reach; eauto.
+    + destruct (L o a Hin) as [Hw Hsr]. eapply sr_reach; eauto.
+    + destruct (L o a Hin) as [Hw Hsr]. eapply sr_reach; eauto.
+Qed.
+
+(* ---- partitions of an interface ---- *)
+Record iface := mkIface { if_names : list N; if_schemas : list xschema }.
+
+(* the schemas of an interface refer to each other by namespace only, and
+   every qualified name is declared once *)
+Definition ns_only (x : xschema) : bool :=
+  forallb (fun r => match r with XImp _ None => true | _ => false end) (x_refs x).
+Definition iface_decls (I : iface) : list qn := flat_map own_decls (if_schemas I).
+Definition wf_iface (I : iface) : Prop :=
+  forallb ns_only (if_schemas I) = true /\ NoDup (if_names I) /\ NoDup (iface_decls I).
+
+Definition single (r : str) (pol : N) (I : iface) : world :=
+  mkWorld [(r, (false, DWsdl [] [if_schemas I] (if_names I)))] pol None.
+
+(* a world is a partition of I when the documents reachable from its root
+   declare what I declares *)
+Definition is_partition (W : world) (root : str) (I : iface) : Prop :=
+  (forall n, names_spec W root n <-> In n (if_names I)) /\
+  (forall q, decls_spec W root q <-> In q (iface_decls I)).
+
+Lemma ns_only_refs x : ns_only x = true -> refs_of_x x = [].
+Proof.
+  unfold ns_only, refs_of_x. induction (x_refs x) as [|r rest IH]; cbn; auto.
+  intro H. apply andb_true_iff in H. destruct H as [H1 H2]. destruct r as [ns [l|]|l]; try discriminate.
+  cbn. auto.
+Qed.
+
+Lemma single_is_partition r pol I : wf_iface I -> is_partition (single r pol I) r I.
+Proof.
+  intros (Hns & _ & _).
+  assert (Hsrc : forall v d, src (single r pol I) v = Some d -> v = r /\ d = DWsdl [] [if_schemas I] (if_names I)).
+  { intros v d. unfold src, single. cbn. destruct (str_eqb v r) eqn:E; [|discriminate].
+    apply str_eqb_eq in E. intro H. inversion H. auto. }
+  assert (Hr : src (single r pol I) r = Some (DWsdl [] [if_schemas I] (if_names I))).
+  { unfold src, single. cbn. rewrite str_eqb_refl. auto. }
+  assert (Hwr : forall v, wr (single r pol I) r v -> v = r).
+  { intros v H. induction H as [|v imps types names l Hv IH Hs Hl]; auto.
+    destruct (Hsrc _ _ Hs) as [_ E]. inversion E; subst. destruct Hl. }
+  assert (Hmem : forall b x, member (single r pol I) r b x -> In x (if_schemas I)).
+  { intros b x Hm. destruct Hm as [imps types names ts x Hw Hts Hx|imps types names l x Hw Hl Hx].
+    - destruct (Hsrc _ _ Hw) as [_ E]. inversion E; subst. destruct Hts as [<-|[]]. auto.
+    - destruct (Hsrc _ _ Hw) as [_ E]. inversion E; subst. destruct Hl. }
+  assert (Hnosr : forall a, ~ sr (single r pol I) r a).
+  { intros a Hs. destruct (sr_member_ex _ r a Hs) as [b [x Hm]].
+    induction Hs as [b' x' l Hm' Hl|a' x' l Hs' IH Hx Hl].
+    - apply Hmem in Hm'. rewrite forallb_forall in Hns. rewrite (ns_only_refs x' (Hns _ Hm')) in Hl. destruct Hl.
+    - apply IH. }
+  split.
+  - intro n. split.
+    + intros (v & imps & types & names & Hw & Hs & Hn). apply Hwr in Hw. subst.
+      rewrite Hr in Hs. inversion Hs; subst. auto.
+    + intro Hn. exists r, [], [if_schemas I], (if_names I). split; [constructor|auto].
+  - intro q. unfold iface_decls. rewrite in_flat_map. split.
+    + intros [v [Hw Hsd]]. apply Hwr in Hw. subst v. destruct Hsd as [b x q Hm Hq|a x q Hs _ _].
+      * exists x. split; auto. eapply Hmem; eauto.
+      * destruct (Hnosr a Hs).
+    + intros [x [Hx Hq]]. exists r. split; [constructor|]. eapply sd_member; eauto.
+      eapply m_inline; eauto. left; auto.
+Qed.
+
+Definition same_set {A} (a b : list A) : Prop := forall x, In x a <-> In x b.
+
+Lemma partition_equivalent_l I W root rk r1 pol s i' s1 i1 :
+  wf_iface I -> guards W rk = true -> is_partition W root I ->
+  load_root io (opn_c W) (docs_of W) root io0 = (Ok s, i') -> w_shadow s = false ->
+  load_root io (opn_c (single r1 pol I)) (docs_of (single r1 pol I)) r1 io0 = (Ok s1, i1) ->
+  w_shadow s1 = false ->
+  same_set (fst (collected root s)) (fst (collected r1 s1)) /\
+  same_set (snd (collected root s)) (snd (collected r1 s1)).
+Proof.
+  intros Hwf G [Pn Pd] Hl Hsh Hl1 Hsh1.
+  assert (S0 : forall W0, cache_sound W0 (i_dcache io0)) by (intros W0 u d []).
+  pose proof (load_collect_l W rk root io0 G (S0 W) eq_refl) as L. rewrite Hl in L.
+  destruct L as [_ L]. destruct (L Hsh) as [Ln Ld].
+  assert (G1 : guards (single r1 pol I) [] = true) by reflexivity.
+  pose proof (load_collect_l (single r1 pol I) [] r1 io0 G1 (S0 _) eq_refl) as L1. rewrite Hl1 in L1.
+  destruct L1 as [_ L1]. destruct (L1 Hsh1) as [Ln1 Ld1].
+  destruct (single_is_partition r1 pol I Hwf) as [Qn Qd].
+  split; intro x.
+  - rewrite Ln, Ln1, Pn, Qn. tauto.
+  - rewrite Ld, Ld1, Pd, Qd. tauto.
+Qed.
